@@ -1,4 +1,4 @@
-import Mixin.Proofs.Validate
+import Mixin.Props.C01
 import Mixin.Facts.ExpectedC05
 /-!
   C05 — validating any decodable transaction never crashes the node.
@@ -17,7 +17,7 @@ import Mixin.Facts.ExpectedC05
   `Integer.Count` in GetExtraLimit. The model follows the repaired code.
 -/
 namespace Mixin.C05
-open Mixin.Validate
+open Mixin.Validate Mixin.C01
 
 /-- what decoding guarantees and the proof needs: the payload (a sub-encoding of the canonical
     bytes that were at most TransactionMaximumSize long) fits the re-decode limit -/
@@ -67,6 +67,66 @@ theorem validate_total {L : Ledger} {O : Oracle} {tx : Tx} {fork : Bool}
     and_false, exists_false, or_false] at hm
   obtain ⟨_, hs, _, _, _, _, ⟨f, i⟩, hin, _, _, _, _, hd⟩ := hm
   exact dispatch_np hI hs hin hd
+
+theorem dispatch_cancel {L O tx f} (h : dispatch L O tx ttNodeCancel f = .ok ()) :
+    validateNodeCancel L O tx = .ok () := by
+  simpa [dispatch, ttNodeCancel, ttScript, ttMint, ttDeposit, ttWithdrawalSubmit, ttWithdrawalClaim, ttNodePledge,
+    Facts.Gen.common_TransactionTypeNodeCancel, Facts.Gen.common_TransactionTypeScript,
+    Facts.Gen.common_TransactionTypeMint, Facts.Gen.common_TransactionTypeDeposit,
+    Facts.Gen.common_TransactionTypeWithdrawalSubmit, Facts.Gen.common_TransactionTypeWithdrawalClaim,
+    Facts.Gen.common_TransactionTypeNodePledge] using h
+
+/-- Side observation (not one of C01/C02/C05): under the ledger invariants a node-cancel typed
+    transaction is never accepted. Its input would have to be the pledge output (type 0xa3), for
+    which validateUTXO collects no signature, and `len(keySigs) < len(Inputs)` then rejects; an
+    input that does collect signatures is an ordinary output, whose creating transaction is not
+    the pledge. validateNodeCancel (and its KeyMultPubPriv panic on the attacker-chosen scalar in
+    Extra[64:96]) is therefore unreachable with an accepting outcome. -/
+theorem cancel_never_accepted {L : Ledger} {O tx fork} (hI : LedgerInv L) (ht : txType tx = ttNodeCancel) :
+    ∀ i o, validate L O tx fork ≠ .accept i o := by
+  intro i o hacc
+  obtain ⟨_, _, f, hin, _, _, hd⟩ := validateM_ok (accept_iff.1 hacc)
+  rw [ht] at hd
+  have h := dispatch_cancel hd
+  obtain ⟨a, hl, _, _⟩ := inputs_full hin (by rw [ht]; decide) (by rw [ht]; decide)
+  have hks := validateInputs_keysigs hin hl (by rw [ht]; decide) (by rw [ht]; decide)
+  unfold validateNodeCancel at h
+  simp only [bind_ok, guardRej_ok] at h
+  obtain ⟨_, _, _, _, _, _, h⟩ := h
+  split at h
+  · rename_i sig cancel script inp _ _ hx
+    obtain ⟨u, ks, hu, hv, _, hk⟩ := loop_single hx hl
+    have hne : ks ≠ [] := by
+      intro hc; rw [hx, hk, hc] at hks; simp at hks
+    have hty := validateUTXO_collects hv hne
+    obtain ⟨hm, hh, _⟩ := utxo_mem hu
+    obtain ⟨t', htx', o', ho, hot⟩ := hI.utxoTx u hm
+    rw [hh] at htx'
+    simp only [bind_ok, guardRej_ok] at h
+    obtain ⟨_, _, _, _, _, _, _, _, r, hr, h⟩ := h
+    cases r with
+    | none => simp at h
+    | some pledging =>
+      simp only [bind_ok, guardRej_ok] at h
+      obtain ⟨_, _, h⟩ := h
+      rw [htx'] at h
+      simp only at h
+      split at h
+      · rename_i po hpo
+        simp only [bind_ok, guardRej_ok] at h
+        obtain ⟨_, hpt, _⟩ := h
+        rw [hpo] at ho
+        have : o' = po := by
+          cases hi : u.index with
+          | zero => simp [hi] at ho; exact ho.symm
+          | succ n => simp [hi] at ho
+        subst this
+        simp at hpt
+        rw [hpt] at hot
+        rcases hty with h' | h' <;> (rw [h'] at hot; revert hot; decide)
+      · simp at h
+  · simp at h
+
 
 /-! ### The hypotheses are satisfiable and needed -/
 namespace Example
